@@ -172,8 +172,9 @@ func (memPool *MemPool) removeTransaction(hash bitcoin.Hash32) bool {
 				if len(otherHashes) > 1 {
 					// Remove this outpoint hash from the list
 					for i, otherHash := range otherHashes {
-						if otherHash.Equal(outpointHash) {
-							otherHashes = append(otherHashes[:i], otherHashes[i+1:]...)
+						if otherHash.Equal(&hash) {
+							memPool.inputs[*outpointHash] = append(otherHashes[:i],
+								otherHashes[i+1:]...)
 							break
 						}
 					}
@@ -227,7 +228,10 @@ func (memPool *MemPool) Conflicting(tx *wire.MsgTx) []bitcoin.Hash32 {
 	// Check for conflicting inputs
 	for _, input := range tx.TxIn {
 		if list, exists := memPool.inputs[*input.PreviousOutPoint.OutpointHash()]; exists {
-			for _, hash := range list {
+			// Copy the list because removing a tx modifies the list in place.
+			hashes := make([]bitcoin.Hash32, len(list))
+			copy(hashes, list)
+			for _, hash := range hashes {
 				result = append(result, hash)
 				memPool.removeTransaction(hash)
 			}
